@@ -149,8 +149,16 @@ def restoreOne (cwd : CPath) (overwrite : Bool) (e : Entry) : Prog Res := do
     | .error er => pure (.error er)
     | .ok () =>
       let fs ← read
-      let payloadStr := pathOfBackupCopy e.info
-      restoreCore (resolve fs cwd payloadStr) (resolve fs cwd e.loc) (resolve fs cwd e.info)
+      -- --overwrite: an existing non-directory (a symlink to a directory included) is removed first
+      let cleared ← (if overwrite ∧ pLexists fs cwd e.loc ∧ (pIslink fs cwd e.loc ∨ ¬ pIsdir fs cwd e.loc) then
+                       atPath cwd e.loc (fun er => pure (.error er)) fun p => removeFile p
+                     else pure (.ok ()))
+      match cleared with
+      | .error er => pure (.error er)
+      | .ok () =>
+        let fs ← read
+        let payloadStr := pathOfBackupCopy e.info
+        restoreCore (resolve fs cwd payloadStr) (resolve fs cwd e.loc) (resolve fs cwd e.info)
 
 def restoreMany (cwd : CPath) (overwrite : Bool) : List Entry → Prog Res
   | [] => pure (.ok ())
